@@ -238,15 +238,25 @@ def emitO : ROptBlock → Nat → LoopCtx → List Const → List Instr × List 
   | .some b, pos, lp, cs => let (c, cs') := emitB b pos lp cs; (asValue b c, cs')
 end
 
-/-- limits of the 16-bit operands (F24): a program beyond them is rejected -/
-def CODE_LIMIT : Nat := 65535
+/-- limits of the operand widths (F24, `narrow`): an operand that does not fit is a SyntaxError -/
+def Instr.fits : Instr → Bool
+  | .const k | .jump k | .jumpIfFalse k | .array k
+  | .getLocal k | .setLocal k | .getGlobal k | .setGlobal k => k ≤ 65535
+  | .fused _ l k => l ≤ 65535 && k ≤ 65535
+  | .callBuiltin _ n => n ≤ 255
+  | .call n => n ≤ 255
+  | _ => true
+
+def Const.fits : Const → Bool
+  | .fn ip nl => ip < 2 ^ 32 && nl ≤ 65535
+  | _ => true
 
 /-- `compile_ast` on a fresh compiler -/
 def compileR (p : RBlock) : Except Err Bytecode :=
   let (c, cs) := emitB p 0 none []
   let is := c ++ [.halt]
-  if codeSize is > CODE_LIMIT + 1 || cs.length > CODE_LIMIT + 1 then .error .syntax
-  else .ok { code := (encodeAll is).toArray, consts := cs }
+  if is.all Instr.fits && cs.all Const.fits then .ok { code := (encodeAll is).toArray, consts := cs }
+  else .error .syntax
 
 def compileProgram (p : Block) : Except Err (RBlock × Bytecode) :=
   match resolveProgram p with
